@@ -17,6 +17,12 @@ nothing); results and inputs of *earlier* applications of a correction object st
 is applied again; documented alternative construction forms (config dict / JSON file given as str
 or Path, baseline as array or Image, matrix file as str or Path, colour checker through the config)
 build the same correction.
+
+Strengthening (round 4): the neutral law draws the *pixel data* of a deactivated ColorCorrection
+independently of its configuration: besides the colour checker also arbitrary images of every
+documented dtype, with floats inside [0, 1] or beyond (dyadic values in [-4, 4), as left behind by an
+earlier balancing / scaling step) - whatever the remaining config keys (clip, balancing, white
+balancing, reference checker) say, ``active=False`` must hand the values back unchanged.
 """
 import contextlib
 import copy
@@ -75,7 +81,9 @@ KINDS = ["type", "type", "rotation", "rotation", "translation", "translation", "
 # the metadata law gets more of the corrections that declare an update (crop, destination system)
 META_KINDS = KINDS + ["curvature", "curvature", "gpersp"]
 NEUTRAL_KINDS = ["type", "rotation", "rotation", "translation", "translation_off", "curvature", "curvature",
-                 "drift_off", "transformation", "affine_fit", "illumination", "color"]
+                 "drift_off", "transformation", "affine_fit", "illumination", "color", "color", "color"]
+# (the deactivated colour correction has the largest configuration space of the neutral elements -
+# balancing mode, white balancing, clipping, reference checker - times the class of pixel data)
 # not in the neutral law: a GeneralizedPerspectiveCorrection fitted on identical source / destination
 # points.  Its Powell fit is not robust (a trial step c = -+1 makes the perspective denominator c.x + 1
 # vanish for a point with coordinate +-1, the objective becomes nan and so do the fitted parameters:
@@ -151,6 +159,10 @@ def _spec(draw, kind, mode, classes=None):
 
 
 _SMALL = [0.0, 1e-3, -1e-3, 5e-3, -5e-3, 2e-2]
+# pixel data handed to a ColorCorrection whose ``active`` flag is off
+# (integer dtypes: the checker or the whole range of the type; floats: the checker, dyadic values in
+# [0, 1] or in [-4, 4))
+_OFF_DATA = {False: ["checker", "wide"], True: ["checker", "unit", "wide", "wide", "wide"]}
 
 
 @st.composite
@@ -266,7 +278,12 @@ def _corr(draw, kind, spec, neutral=False, keep_shape=False):
                 "whitebalancing": draw(st.booleans()),
                 "clip": draw(st.booleans()),
                 "corner": draw(st.integers(0, 3)),
-                "base": draw(st.sampled_from(["default", "custom"]))}
+                "base": draw(st.sampled_from(["default", "custom"])),
+                # an active correction needs the colour checker in its ROI; a deactivated one is
+                # documented for any uint8 / uint16 / float32 / float64 image: arbitrary data, floats
+                # in [0, 1] or floats beyond it (the output of an earlier balancing / scaling step)
+                "data": draw(st.sampled_from(_OFF_DATA[spec["dtype"] in ("float32", "float64")]))
+                if neutral else "checker"}
     raise AssertionError(kind)
 
 
@@ -471,6 +488,12 @@ def _payload(spec, cp):
             dr, dc = cp["shift"][0] + t, cp["shift"][1] - t
             slices.append(_as_dtype(np.roll(np.roll(base, dr, axis=0), dc, axis=1), spec["dtype"]))
         return np.stack(slices, axis=2) if spec["series"] else slices[0]
+    if kind == "color" and cp.get("data", "checker") != "checker":
+        # deactivated colour correction: no checker needed.  "wide": the whole range of the integer
+        # types, dyadic floats in [-4, 4); "unit": dyadic floats in [0, 1]
+        if cp["data"] == "unit" and spec["dtype"] in ("float32", "float64"):
+            return (rng.integers(0, 9, size=shape) / 8.0).astype(spec["dtype"])
+        return gens.payload_array(shape, spec["dtype"], spec["pseed"], dyadic=True)
     if kind == "color":
         h, w = spec["shape"]
         cols = _checker_colors(cp["cseed"])
@@ -1099,8 +1122,20 @@ def check_neutral(case):
         else:
             ok = got.shape == arr.shape and np.array_equal(got, arr.astype(np.float32))
         if not ok:
-            raise Violation("neutral-changed:color", "inactive ColorCorrection changed the colours", t)
-        return _outcome(case, neutral_ok=True)
+            msg = "inactive ColorCorrection changed the colours"
+            if want is not None and got.shape == arr.shape:
+                bad = np.argwhere(got != arr.astype(np.float32))
+                i = tuple(bad[0])
+                msg += (f" (config clip={cp['clip']}, whitebalancing={cp['whitebalancing']}, balancing="
+                        f"{cp['balancing']}): {len(bad)} values, e.g. at {i}: {arr[i]!r} -> {got[i]!r}")
+            raise Violation("neutral-changed:color", msg, t)
+        out = _outcome(case, neutral_ok=True)
+        beyond = want is not None and bool(arr.min() < 0.0 or arr.max() > 1.0)
+        out.labels = tuple(out.labels) + (f"off-data-{cp.get('data', 'checker')}",
+                                          "off-clip" if cp["clip"] else "off-noclip") + (
+            ("off-float-beyond-unit-range",) + (("off-clip-float-beyond-unit-range",) if cp["clip"] else ())
+            if beyond else ())
+        return out
     if got.shape != arr.shape:
         raise Violation(f"neutral-shape:{cp['kind']}", f"shape {arr.shape} -> {got.shape}", t)
     if not np.array_equal(got.astype(np.float64), arr.astype(np.float64)):
@@ -1261,7 +1296,9 @@ _RULE = ("Hypothesis draws a correction (type, rotation 2-D/3-D, translation, cu
          "corrections that do not go through cv2 / skimage, signed and 32/64-bit integer dtypes; the "
          "metadata law states the declared updates independently of correct_metadata; the re-use law "
          "also keeps the first result and the first input and demands that the second application "
-         "leaves them alone; construction_forms_agree builds the same correction from a JSON file "
+         "leaves them alone; the neutral law gives a deactivated ColorCorrection (all combinations of "
+         "clip / balancing / white balancing / reference checker) the checker image, arbitrary "
+         "integer images, floats in [0, 1] or floats in [-4, 4); construction_forms_agree builds the same correction from a JSON file "
          "(str / Path), a Path to the matrix file, an Image as drift baseline; "
          "distinct = the whole case")
 
